@@ -63,6 +63,7 @@ class Tracer:
                 k = tr.w.current.kernel
                 n0 = len(k.log)
                 res = None
+                token = tr.pre_call(kind, name, sa, a, kw)
                 try:
                     try:
                         r = fn(sa, *a, **kw)
@@ -75,6 +76,7 @@ class Tracer:
                     tr.depth -= 1
                     if res is not None:
                         tr.records.append(('call', kind, sa, tr.r_res(kind, res), tr.r_sa(sa, tr.w.current.controller.ike_sas), tr.r_nl(k.log[n0:])))
+                        tr.post_call(token, kind, name, sa, res, k.log[n0:])
             setattr(cls, name, wrapper)
         for n in REQ:
             wrap(n, 'req')
@@ -99,7 +101,27 @@ class Tracer:
             return pm(sa, data)
         cls.process_message = pm_wrapper
 
+    # hooks for the handler-level recorder (harness/handlers.py)
+    def pre_call(self, kind, name, sa, a, kw):
+        return None
+
+    def post_call(self, token, kind, name, sa, res, nl):
+        pass
+
+    def step_begin(self, ep, pre_objs):
+        pass
+
+    def step_end(self, ep, info):
+        pass
+
     def close(self):
+        """stop recording.  When a History owns this tracer its own wrappers sit on top of ours: the class attributes are
+        restored by the owner (History.close -> restore), innermost last, so that no wrapper is ever left installed"""
+        self.enabled = False
+        if getattr(self, 'owner', None) is None:
+            self.restore()
+
+    def restore(self):
         for name, fn in self.saved.items():
             setattr(IKESA.IkeSa, name, fn)
         self.saved = {}
@@ -201,6 +223,7 @@ class Tracer:
             pre = [tr.r_sa(s, pre_objs) for s in pre_objs]
             thr = ep.controller.cookie_threshold
             tr.records, tr.parsed = [], None
+            tr.step_begin(ep, pre_objs)
             nl0 = len(ep.kernel.log)
             sent0 = len(w.sent)
             nstat = len(ep.status_replies)
@@ -213,6 +236,7 @@ class Tracer:
             for t in pre:
                 toks += t
             # event
+            ev_start = len(toks)
             if datagram is not None:
                 try:
                     h = tr.side(lambda: M.Message.parse(datagram.data, header_only=True))
@@ -246,6 +270,7 @@ class Tracer:
                 elif hdr.type == X.XFRM_MSG_EXPIRE:
                     exp = [hx(bytes(msg.state.id.spi)), '1' if msg.hard else '0']
             toks += opt(acq) + opt(exp) + ['1' if control else '0', '1' if send_fail else '0']
+            ev_toks = toks[ev_start:]
             # tape
             toks.append(str(len(tr.records)))
             ran = 0
@@ -276,14 +301,19 @@ class Tracer:
             nl = tr.r_nl(ep.kernel.log[nl0:])
             exp_t += [str(len(nl))] + [x for op in nl for x in op]
             exp_t += ['0', '0']
+            tail = st + [str(len(nl))] + [x for op in nl for x in op] + ['0', '0']
             if control and len(ep.status_replies) > nstat:
                 import json
                 js = json.loads(ep.status_replies[-1].decode())
-                exp_t += ['1', str(len(js))]
+                stat_t = ['1', str(len(js))]
                 for d in js:
-                    exp_t += [d['my_spi'] or '-', str(int(IKESA.IkeSa.State[d['state']]))]
+                    stat_t += [d['my_spi'] or '-', str(int(IKESA.IkeSa.State[d['state']]))]
             else:
-                exp_t += ['0']
+                stat_t = ['0']
+            exp_t += stat_t
+            tr.step_end(ep, {'now': w.now, 'thr': thr, 'pre_objs': pre_objs, 'post_objs': post_objs, 'event': ev_toks, 'interrupted': interrupted,
+                             'ran': ran, 'tail': tail + stat_t,
+                             'kind': 'dg' if datagram is not None else ('xfrm' if event is not None else ('ctl' if control else 'tick'))})
             tr.lines.append((line, ' '.join(exp_t), {'ep': ep.name, 'ok': not interrupted, 'now': w.now, 'event': 'dg' if datagram is not None else
                                                      ('xfrm' if event is not None else ('ctl' if control else 'tick'))}))
             return ok
